@@ -29,7 +29,31 @@ def collections(thorough):
             except TypeError:
                 pass
     out += [[[1], []], [[], [2, 3]], ([1, 2], [3]), 5, None, "ab"]
+    out += [Bag([]), Bag([1, 2]), Bag([0]), TruthyBag([]), TruthyBag([3]), FalsyBag([1])]      # a user's re-iterable collections: only __iter__ (and a __bool__ of their own)
     return out
+
+
+class Bag:
+    """a finite re-iterable collection that offers nothing but __iter__"""
+
+    def __init__(self, items):
+        self.items = list(items)
+
+    def __iter__(self):
+        return iter(self.items)
+
+    def __repr__(self):
+        return f"{type(self).__name__}({self.items!r})"
+
+
+class TruthyBag(Bag):
+    def __bool__(self):
+        return True
+
+
+class FalsyBag(Bag):
+    def __bool__(self):
+        return False
 
 
 def full_family():
